@@ -70,6 +70,9 @@ type KeyPair struct {
 }
 
 type Case struct {
+	// NoS256: the provider's discovery document does not advertise S256 (op.Config.CodeMethodS256 false, the zero value);
+	// the statement binds the RP to the S256 challenge whatever the provider advertises
+	NoS256         bool     `json:"no_s256,omitempty"`
 	Router         string   `json:"router"`
 	PKCE           bool     `json:"pkce"`
 	JWTProfile     bool     `json:"jwt_profile"`
@@ -454,6 +457,12 @@ func genCallback(t *rapid.T, label string, browser int, latest map[int]int, nAtt
 }
 
 func genCase(t *rapid.T) Case {
+	c := genCase0(t)
+	c.NoS256 = rapid.IntRange(0, 2).Draw(t, "nos256") == 0
+	return c
+}
+
+func genCase0(t *rapid.T) Case {
 	var c Case
 	c.Router = pick(t, "router", "provider", "legacy")
 	c.PKCE = rapid.Bool().Draw(t, "pkce")
@@ -839,7 +848,9 @@ func run(c Case) (res *vkit.Result) {
 		cl.Keys = map[string]string{clientKID: clientKey}
 	}
 	w.st = vkit.NewStore([]*vkit.ClientSpec{cl}, vkit.SignKeySpec{KeyName: "rsa1", Alg: "RS256", KID: "sig1"}, vkit.StorePolicy{})
-	w.sut = vkit.MustBuild(vkit.DefaultProviderSpec(c.Router), w.st)
+	pspec := vkit.DefaultProviderSpec(c.Router)
+	pspec.S256 = !c.NoS256
+	w.sut = vkit.MustBuild(pspec, w.st)
 	w.tr = &transport{sut: w.sut}
 
 	// relying party
